@@ -10,7 +10,7 @@ from argparse import Namespace
 from . import gen as G
 
 KINDS = ("argparse_function", "class", "function")
-PRESTATES = ("missing", "empty", "absent", "stale", "agreeing")
+PRESTATES = ("missing", "empty", "absent", "stale", "agreeing", "rebound")
 OTHER_SRC = [
     "import os\n",
     "CONSTANT = 5\n",
@@ -95,6 +95,12 @@ def gen_project(r, n_kinds=None, prestates=PRESTATES, allow_method=True, allow_b
                 content = None
             elif ps == "empty":
                 content = ""
+            elif ps == "rebound" and k == "class":
+                # the class name is bound to something that is not a class (an assignment, a function parameter)
+                content = before + r.choice(["%s = make(%r)\n" % (name, name), "def factory(%s=None):\n    return %s\n" % (name, name)])
+            elif ps == "rebound":
+                ps = "absent"
+                content = before or "import os\n"
             elif ps == "absent":
                 content = before or "import os\n"
             elif ps == "stale":
